@@ -55,6 +55,8 @@ InvalidFor(class) ==
                  "rpm_relation_suggests", "rpm_relation_conflicts"} -> {"rpm"}    \* rpm knows <, <=, =, >=, > only
     [] class = "platform" -> {"apk", "archlinux"} [] class \in {"arch_name", "arch_name_hyphen", "arch_name_dot", "arch_name_dashes"} -> {"archlinux"}   \* may not start with hyphen or dot [] class = "missing_name" -> AllFmts
     [] class = "wrong_passphrase" -> {"deb", "rpm", "apk"}
+    \* deb and ipk write GNU tar headers: an owner / group name of more than 32 bytes cannot be stored
+    [] class \in {"gnu_name_limit_dir", "gnu_name_limit_file", "gnu_name_limit_tree_dirs"} -> {"deb", "ipk"}
     \* a hand-built Info (no defaults): a package needs a name and a version, and deb/rpm/apk an architecture - the general
     \* one or the packager's OWN (another packager's architecture is not this package's)
     [] class \in {"handbuilt_no_arch", "handbuilt_arch_of_other"} -> {"deb", "rpm", "apk"}
